@@ -41,6 +41,10 @@ class PyprojectWriter(DependencyWriter):
             tomlkit.dumps(original).split("\n"), tomlkit.dumps(pyproject).split("\n")
         )
 
+        if not added_line_nums:
+            # Every dependency was there already (e.g. under a key poetry spells differently)
+            return None
+
         if not dry_run:
             with open(self.path, "w", encoding="utf-8") as f:
                 tomlkit.dump(pyproject, f)
